@@ -18,11 +18,11 @@ Q_Bad        == {"short"}
 
 T_Users      == {"u1", "u2", "kc"}
 T_LockSeq    == <<"l1", "l2">>
-T_SignerSets == {{}, {"u1"}, {"u2"}, {"ALPHA"}, {"CMT"}, {"M1"}, {"u1", "ALPHA"}}
-T_Amounts    == {-2, -1, 0, 1, 2, 3}
-T_Untils     == {-1, 0, 1, 2, 3}
-T_Epochs     == {1, 2, 3, 5}
-T_Bad        == {"empty", "short", "long"}
+T_SignerSets == {{}, {"u1"}, {"ALPHA"}, {"CMT", "u2"}}
+T_Amounts    == {-1, 0, 1, 2}
+T_Untils     == {-1, 0, 2, 3}
+T_Epochs     == {1, 2, 3}
+T_Bad        == {"empty", "long"}
 
 \* simulation (scenario generation): richer, unbounded walk
 S_Users      == {"u1", "u2", "u3", "kc"}
